@@ -45,6 +45,7 @@ class Frame:
         self.inline_stack = []
         self.generator = False
         self.outer_module = None
+        self.gen = None
         self.modifiable = None     # root heap id -> True | set(fields) : what the contract allows to be written
 
 
@@ -66,6 +67,7 @@ class Engine(ExprMixin, StmtMixin, CallMixin, PrimMixin, NumpyMixin):
         self.stmt_stack = [None]
         self.used_contracts = set()
         self.unknown_s = 0.0
+        self.vacuity_warnings = []
 
     # ------------------------------------------------------------ obligations
     def oblige(self, st, goal, kind, label, node=None, fr=None):
@@ -272,6 +274,17 @@ class Engine(ExprMixin, StmtMixin, CallMixin, PrimMixin, NumpyMixin):
                 yield from self.instantiate(st.fork(), alt, name, fresh)
         elif ty == "func":
             yield st, Opaque("func:" + name)
+        elif ty in ("iterable", "iterable_len", "iterable_nolen"):
+            from .prims import AbsIterable
+            n = z3.Int(name + "!count")
+            self.assume(st, n >= 0)
+            if ty in ("iterable", "iterable_len"):
+                s1 = st.fork() if ty == "iterable" else st
+                s1.path.append(name + ":has-len")
+                yield s1, AbsIterable(name, n, True)
+            if ty in ("iterable", "iterable_nolen"):
+                st.path.append(name + ":no-len")
+                yield st, AbsIterable(name, n, False)
         else:
             raise SpecError("unknown type %r for %s" % (ty, name))
 
@@ -327,6 +340,8 @@ def _verify_function(self, cname):
         info["status"] = "unsupported" if isinstance(e, Unsupported) else "spec-error"
         info["error"] = "%s: %s" % (type(e).__name__, e)
     info["obligations"] = len(self.obls) - nstart
+    if self.vacuity_warnings:
+        info.setdefault("vacuous_exits", []).extend(sorted(set(self.vacuity_warnings)))
     info["wall_s"] = round(time.time() - t0, 3)
     return info
 
@@ -375,10 +390,18 @@ def _verify_variant(self, f, c, var, vi, info):
         else:
             raise SpecError("parameter %s of %s has neither a type nor a default" % (p, c.name))
 
+    if a.vararg is not None and a.vararg.arg in ptypes:
+        pnames.append(a.vararg.arg)
     for st, env in inst(0, st0, {}):
         if a.kwarg is not None:
-            env[a.kwarg.arg] = st.alloc(HObj("dict", {}, items={}))
-        if a.vararg is not None:
+            kwv = ptypes.get(a.kwarg.arg, c.defaults.get(a.kwarg.arg))
+            items = {}
+            if isinstance(kwv, str) and kwv.startswith("const:"):
+                items = ast.literal_eval(kwv[6:])
+            elif isinstance(kwv, dict):
+                items = kwv
+            env[a.kwarg.arg] = st.alloc(HObj("dict", {}, items=dict(items), fresh=True))
+        if a.vararg is not None and a.vararg.arg not in env:
             env[a.vararg.arg] = ()
         # ghost inputs
         for g, ty in c.ghost.items():
@@ -410,6 +433,15 @@ def _verify_variant(self, f, c, var, vi, info):
                     if isinstance(h, HStruct):
                         for r in h.fields.values():
                             fr.modifiable[r.id] = True
+        if c.gen:
+            srcv = env[c.gen["source"]] if "source" in c.gen else None
+            fr.gen = dict(c.gen)
+            if srcv is None:
+                srcv = self.spec_eval_val(c.gen["source_expr"], st, fr)
+            fr.gen["source_value"] = srcv
+            fr.gen["seq"] = self.seq_of(srcv, st, node)
+            st.ghost["out_n"] = 0
+            st.ghost["consumed"] = 0
         # assume preconditions
         for name, clause in c.requires:
             self.assume(st, self.spec_eval(clause, st, fr, c.name + ":" + name))
@@ -449,6 +481,13 @@ def _run_body(self, f, c, st, fr, info):
                     g = self.spec_eval(cond, fr.entry, fr, c.name + ":raises")
                     self.oblige(s, znot(truth(g)) if not isinstance(g, bool) else (not g), "post",
                                 "must-raise-%s" % exc, node, fr)
+            if getattr(fr, "gen", None):
+                if fr.generator:
+                    self.oblige(s, to_z3(s.ghost["out_n"], "int") == to_z3(fr.gen["seq"][0], "int"), "gen",
+                                "yields-all-items", node, fr)
+                else:
+                    self.oblige(s, self.iter_equal(fr2.result, fr.gen["source_value"], s), "gen",
+                                "returns-iterator-over-the-source-items", node, fr)
             if "post" in c.checks:
                 for name, clause in c.ensures:
                     g = self.spec_eval(clause, s, fr2, c.name + ":" + name)
